@@ -79,7 +79,7 @@ def main():
         res["checks"][prop] = {"runs": tot, "executions": tot * 4}
         print(prop, "ok" if not [m for m in res["mismatches"] if m["check"] == prop] else "MISMATCH", flush=True)
     res["wall_s"] = round(time.time() - t0, 1)
-    json.dump(res, open(os.path.join(VERIF, "evidence", "determinism.json"), "w"), indent=1)
+    json.dump(res, open(os.path.join(VERIF, "reports", "determinism.json"), "w"), indent=1)
     print("mismatches:", len(res["mismatches"]))
     return 1 if res["mismatches"] else 0
 
